@@ -59,6 +59,7 @@ class Monitor(object):
         self.t_connect = None
         self.opens_seen = 0
         self.multi = False
+        self.booted = False
         self.pending = {}
         self.nframes = {}
         self.recv_lo = {}          # connector id -> {counter: frames certainly received and to be counted}
@@ -72,6 +73,8 @@ class Monitor(object):
 
     def step(self, ev, obs, sim):
         self.trace.append(ev)
+        if ev['k'] in ('boot', 'start'):
+            self.booted = True
         if self.multi:
             # the history left the single-connection regime (already reported under C12): what follows is a
             # consequence of that finding and is not attributed to the other properties
@@ -324,6 +327,34 @@ class Monitor(object):
             return ('rr',) if len(body) == 4 else None
         return ('hdr', 3)
 
+    def check_as_width(self, ev, b, outs, sim):
+        """C05: AS numbers in AS_PATH are 4 octets wide on this connection iff both OPENs carried capability 65.
+        Decided on the two probe UPDATEs (one AS_SEQUENCE [65001]) that are well-formed in exactly one width."""
+        from gen import session_gen as SG
+        probes = getattr(self, '_probes', None)
+        if probes is None:
+            pool = dict(SG.message_pool(self.cfg['remote_as']))
+            probes = self._probes = {pool['update_aspath4']: True, pool['update_aspath2']: False}
+        if b not in probes or any(o[0] == 'unmodelled' for o in outs):
+            return
+        c = ev['c']
+        ours = [w for w in sim.world.connectors[c].written if w[18] == 1]
+        stream = self.streams.get(c, b'')
+        theirs = [body for t, ln, body in frames_of(stream) if t == 1]
+        if not ours or not theirs:
+            return
+        mine = any(cc == 65 for cc, _ in parse_open_wire(ours[-1])['caps'])
+        peer = any(cc == 65 for cc, _ in parse_open_wire(MARK + b'\x00\x00\x01' + theirs[0])['caps'])
+        both = mine and peer
+        ok = any(o[0] == 'handler' and o[1] == 'update' for o in outs)
+        err = any(o[0] == 'handler' and o[1] == 'update_error' for o in outs)
+        want_ok = (probes[b] == both)
+        if (want_ok and not ok) or (not want_ok and not err):
+            self.fail('C05', 'AS_PATH with %d-octet AS numbers was %s although capability 65 was advertised by us=%s, by the peer=%s '
+                             '(4-octet AS numbers are used iff both advertised it)' % (
+                                 4 if probes[b] else 2, 'accepted' if ok else ('reported malformed' if err else 'not reported'), mine, peer),
+                      'as-width')
+
     def check_rfc(self, ev, prev, obs, sim):
         k = ev['k']
         ps, ns = prev['state'], obs['state']
@@ -406,6 +437,14 @@ class Monitor(object):
                         if tm.get('hold') != want_hold or tm.get('keepalive') != want_ka:
                             self.fail('C05', 'session hold time is not min(configured %d, proposed %d): timers %r at %d' % (
                                 self.cfg['hold_time'], cls[1], tm, obs['now']), 'hold-min')
+                            # RFC 4271 8.2.2 (OpenSent, event 19): "sets the HoldTimer according to the negotiated value",
+                            # KeepaliveTimer = a third of it
+                            bad('after accepting the OPEN the hold / keepalive timers are not the negotiated ones (%r at %d, negotiated %d)'
+                                % (tm, obs['now'], h), 'negotiated-timers')
+                        if h == 0 and (tm.get('hold') or tm.get('keepalive')):
+                            # RFC 4271 8.2.2 (OpenSent, event 19): with a negotiated hold time of zero the HoldTimer and
+                            # the KeepaliveTimer are not started
+                            bad('negotiated hold time 0 but a hold / keepalive timer is running (%r)' % (tm,), 'hold0-timers')
                 else:
                     expect_error(cls, 5, 0)
             elif c0 == 'keepalive':
@@ -419,6 +458,7 @@ class Monitor(object):
             elif c0 == 'update':
                 if ps == 'ESTABLISHED':
                     expect_unchanged('update')
+                    self.check_as_width(ev, b, outs, sim)
                 else:
                     expect_error(cls, 5, 0)
             elif c0 == 'notification':
@@ -430,6 +470,17 @@ class Monitor(object):
             # "-> Idle" always includes the damped automatic restart being pending (Appendix A)
             if not obs['timers'].get('idlehold') and not any(p == 'closing' for p in obs['conns']):
                 bad('the session ended in Idle without a restart pending', 'no-restart')
+        if k in ('chunk', 'lost') and not self.stopped and self.booted and not any(o[0] == 'unmodelled' for o in outs):
+            # C10: "after any input the agent is either still in session or has closed cleanly with its reconnect scheduled"
+            tm = obs['timers']
+            pr = obs['proto']
+            on_live = pr is not None and pr < len(obs['conns']) and obs['conns'][pr] == 'connected'
+            in_session = ns in ('OPENSENT', 'OPENCONFIRM', 'ESTABLISHED') and on_live
+            scheduled = (ns == 'IDLE' and (tm.get('idlehold') or any(p == 'closing' for p in obs['conns']))) or \
+                        (ns in ('CONNECT', 'ACTIVE') and (tm.get('retry') or on_live or any(p == 'connecting' for p in obs['conns'])))
+            if not in_session and not scheduled:
+                self.fail('C10', 'after peer input / connection loss the agent is neither in session nor has a reconnect scheduled: '
+                                 'state %s, timers %r, connections %r' % (ns, tm, obs['conns']), 'no-reconnect-scheduled')
         if ns == 'ESTABLISHED' and ps != 'ESTABLISHED':
             # entered only by a KEEPALIVE on the current connection after a valid OPEN on it
             if not (k == 'chunk' and ev['c'] == obs['proto']):
